@@ -585,9 +585,11 @@ fn collect_runtime_types(
                         self.collect_type(elem);
                     }
                 }
-                tast::Ty::TStruct { name: _ } => {
-                    // Vec types are handled as slices, no special collection needed
+                tast::Ty::TVec { elem } => {
+                    // a Vec is a Go slice; its element type may still need a helper type
+                    self.collect_type(elem);
                 }
+                tast::Ty::TStruct { name: _ } => {}
                 tast::Ty::TApp { ty, args } => {
                     // Vec types are handled as slices, no special collection needed
                     self.collect_type(ty);
